@@ -52,16 +52,14 @@ def kindExceptions : List (String × Nat × Kind × Kind) := [
   ("GetAttributesRequestPayload", 0x42013B, .enumOrStruct, .prim 5)]
 
 /-- (class, field tag, reader requires at least one item, writer requires at least one item).
- * Template, Attribute: read() reads one Attribute unconditionally and then loops (secrets.py l.638-645); write()
-   loops over whatever the list holds (l.653): `Template(attributes=[])` is constructible, is written as an empty
-   structure and is REJECTED by its own reader — a C01 violation (signature
-   `c01:writer-emits-what-reader-rejects:Template.attributes`).
+ * (Template, Attribute was listed here until /repo 5cfdcfc: `Template(attributes=[])` was written as an empty
+   structure that Template.read rejects - a C01 violation, signature
+   `c01:writer-emits-what-reader-rejects:Template.attributes`; the writer now refuses it, the tables agree.)
  * GetAttributeListResponsePayload, Attribute Reference (KMIP 2.0): under 1.x the reader insists on one Attribute
    Name (get_attribute_list.py l.290-295), under 2.0 it does not (l.298-317), while the writer refuses an empty list
    under every version (l.366-385): the 2.0 reader is more lenient than the writer (the decoded value cannot be
    written back, InvalidField); no encodable value fails to round-trip. -/
 def min1Exceptions : List (String × Nat × Bool × Bool) := [
-  ("Template", 0x420008, true, false),
   ("GetAttributeListResponsePayload", 0x42013B, false, true)]
 
 /-! ### agreement of the two regenerated tables -/
@@ -330,7 +328,7 @@ example : ∀ f ∈ RequestBatchItem.r.fields, f.active 10 = true → f.accepts 
 /-- the exception lists are about real differences: the two tables do differ there -/
 example : GetAttributesRequestPayload.r.fields.any (fun f => f.tag == 0x42013B && f.kind == .enumOrStruct) = true ∧
     GetAttributesRequestPayload.w.fields.any (fun f => f.tag == 0x42013B && f.kind == .prim 5) = true := by decide
-example : genReadMin1.contains ("Template", 0x420008) = true ∧ genWriteMin1.contains ("Template", 0x420008) = false := by
+example : genReadMin1.contains ("Template", 0x420008) = true ∧ genWriteMin1.contains ("Template", 0x420008) = true := by
   decide
 
 end Kmip.C01Gen
